@@ -329,6 +329,27 @@ pub fn check_xml(ep: &EnergyPerformance, xml: &str, units: f64, rel: f64) -> Res
             return Err(Violation::new("xml_content", path.to_string(), format!("{} <{}> elements but the result has {}", count(path), path, want)));
         }
     }
+    // building demands: one element per declared service, with that service's values
+    {
+        let srv = get("BalanceEPB/Componentes/Demanda/Servicio");
+        let vals = get("BalanceEPB/Componentes/Demanda/Valores");
+        let want: Vec<(&str, &Vec<f32>)> =
+            [("ACS", &c.needs.ACS), ("CAL", &c.needs.CAL), ("REF", &c.needs.REF)].into_iter().filter_map(|(n, v)| v.as_ref().map(|v| (n, v))).collect();
+        if srv.len() != want.len() || vals.len() != want.len() {
+            return Err(Violation::new("xml_content", "Demanda", "<Demanda> elements lack Servicio/Valores children".to_string()));
+        }
+        let mut got: Vec<(String, String)> = srv.iter().zip(vals.iter()).map(|(s, v)| (s.text.trim().to_string(), v.text.trim().to_string())).collect();
+        got.sort();
+        let mut exp: Vec<(String, String)> = want.iter().map(|(n, v)| (n.to_string(), fmt_vals(v))).collect();
+        exp.sort();
+        if got != exp {
+            return Err(Violation::new(
+                "xml_content",
+                "Demanda",
+                format!("<Demanda> elements say {:?} but the declared demands are {:?}", truncate(&format!("{:?}", got), 300), truncate(&format!("{:?}", exp), 300)),
+            ));
+        }
+    }
     // component ids and values, in order, per kind
     for (tag, pred) in [
         ("Consumo", Energy::is_used as fn(&Energy) -> bool),
